@@ -423,6 +423,89 @@ func c08Run(tier string) func(cfgIdx int, hist []int) *mc.SeqOut {
 	}
 }
 
+// ---- C08 schedules: range reads below the revision being compacted, while the compaction runs ----
+//
+// A read that began before the compaction was accepted may still be served, but only with the
+// whole snapshot at its revision: an error or the right data, never what is left of it.
+
+func c08SchedScenario(kind string) *mc.Scenario {
+	return &mc.Scenario{Name: "C08/sched/compaction-vs-" + kind + "-below-the-new-floor", Body: func(x *mc.X) {
+		so := &mc.SeqOut{}
+		cfg := cmpCfg{engine: hx.Mem, keys: []string{"/r/a", "/r/b"}}
+		w := newCmpWorld(cfg, "C08", so)
+		defer w.close()
+		for _, o := range []seqOp{{0, rCreate, "a1"}, {0, rUpdOK, "a2"}, {1, rCreate, "b1"}, {0, rUpdOK, "a3"}, {1, rDelOK, ""}} {
+			if !w.applyOp(so, w.m, "C08", cfg.keys[o.key], o) {
+				panic("initial history failed")
+			}
+		}
+		R := uint64(base + 4)
+		type rd struct {
+			rev  uint64
+			kvs  []*proto.KeyValue
+			err  string
+			what string
+		}
+		var reads []*rd
+		vrt.BeginExplore()
+		var ths []*vrt.Thread
+		ths = append(ths, vrt.Go(func() {
+			if _, err := w.b.Compact(bg, R); err != nil {
+				x.Fail("C08|compact-error|mem", "%v", err)
+			}
+		}))
+		revs := []uint64{base + 2, base + 3}
+		if kind == "stream" {
+			revs = []uint64{base + 2} // a streamed read brings its own consumer and channel: one is enough
+		}
+		for _, rev := range revs {
+			r := &rd{rev: rev, what: kind}
+			reads = append(reads, r)
+			ths = append(ths, vrt.Go(func() {
+				switch kind {
+				case "list":
+					l, err := w.b.List(bg, &proto.RangeRequest{Key: []byte("/r/"), End: []byte("/r0"), Revision: r.rev})
+					if err != nil {
+						r.err = err.Error()
+					} else {
+						r.kvs = l.Kvs
+					}
+				default:
+					var n int
+					r.kvs, r.err, n = w.stream("/r/", "/r0", r.rev)
+					if n != 1 {
+						x.Fail("C08|stream-terminator|mem", "stream at revision %d ended with %d terminators", int64(r.rev)-base, n)
+					}
+				}
+			}))
+		}
+		for _, t := range ths {
+			vrt.Join(t)
+		}
+		vrt.Quiesce()
+		vrt.EndExplore()
+		var outs []string
+		for _, r := range reads {
+			want, _ := w.m.list("/r/", "/r0", r.rev, 0)
+			switch {
+			case r.err != "" && len(r.kvs) > 0 && r.what != "stream":
+				// (a stream that has sent batches can only report the lost race in its terminator)
+				x.Fail("C08|data-and-error-below-floor|"+r.what+"|mem", "%s at revision %d, concurrent with a compaction at %d, delivered %s and then the error %q", r.what, int64(r.rev)-base, int64(R)-base, kvsString(r.kvs), r.err)
+			case r.err == "" && !sameKvs(r.kvs, want):
+				x.Fail("C08|partial-data-below-floor|"+r.what+"|mem", "%s at revision %d, concurrent with a compaction at %d, answered %s without error; the snapshot at that revision is %s", r.what, int64(r.rev)-base, int64(R)-base, kvsString(r.kvs), mkvString(want))
+			}
+			outs = append(outs, fmt.Sprintf("%d:%v", int64(r.rev)-base, r.err == ""))
+		}
+		// afterwards the floor is in force, for both nodes
+		w.m.floor = R
+		w.record = R
+		w.checkFloor()
+		x.Viols = append(x.Viols, so.Viols...)
+		x.Obs = strings.Join(outs, " ")
+		w.clean = true
+	}}
+}
+
 func driveCompactBFS(c *mc.Ctx, cfgs []int) {
 	stats := map[string]mc.SeqStats{}
 	total := mc.SeqStats{}
@@ -446,10 +529,23 @@ func init() {
 		ID:    "C08",
 		Level: "model_checking",
 		Rule: "explicit-state BFS over sequences of writes on 2 keys and compaction requests (revision 0, every revision up to the depth, above the current revision; hence increasing, repeated, decreasing orders), de-duplicated on model state + rank-normalised storage; " +
-			"after every step List, limited List and streamed range are issued at every revision from the first to the committed one: refused below the highest accepted compaction revision, served at or above it; the stored compaction record must equal that floor; the same reads are also issued through a second, long-lived node over the same store (a follower that adopted the leader's read revision and served an ordinary read after every step)",
-		Assume: []string{"single client, default schedule, quiescence after every request", "in-memory engine (thorough: badger and tikv-mock at depth 3)"},
+			"after every step List, limited List and streamed range are issued at every revision from the first to the committed one: refused below the highest accepted compaction revision, served at or above it; the stored compaction record must equal that floor; the same reads are also issued through a second, long-lived node over the same store (a follower that adopted the leader's read revision and served an ordinary read after every step); plus every schedule without preemptions (thorough: one preemption) of a compaction at R against range reads at revisions below R (two Lists; one streamed range): a List ends with an error or with the whole snapshot at its revision, a stream without error holds the whole snapshot, and afterwards the floor is in force",
+		Assume: []string{"the history search uses a single client and the default schedule, quiescence after every request; reads racing a compaction are covered by the schedule scenarios", "in-memory engine (thorough: badger and tikv-mock at depth 3)"},
 		Exec:   func(j *mc.Job) *mc.JobResult { return mc.SeqExec(j, c08Run(j.Tier)) },
+		Scenarios: func(tier string) []*mc.Scenario {
+			return []*mc.Scenario{c08SchedScenario("list"), c08SchedScenario("stream")}
+		},
 		Drive: func(c *mc.Ctx) {
+			full := c.Deadline
+			c.Deadline = c.Start.Add(full.Sub(c.Start) / 3)
+			mc.DriveSchedules(c, func(i int, sc *mc.Scenario) mc.SchedPlan {
+				p := mc.SchedPlan{Class: "compaction-vs-reads-below-the-new-floor", Bounds: []int{0}, Shard: true}
+				if c.Tier == "thorough" {
+					p.Bounds = []int{0, 1}
+				}
+				return p
+			})
+			c.Deadline = full
 			if c.Tier == "thorough" {
 				driveCompactBFS(c, []int{0, 3, 4})
 			} else {
